@@ -1,6 +1,6 @@
 /* Native setter sweep (NOT a solver result): every corpus URL x ten setters x a list of values (the new_value strings of
  * tests/wpt/setters_tests.json plus hand-picked ones).  After each call: url and url_aggregator agree on the return value,
- * href and getters; a failing setter left the URL unchanged; validate() holds; the href re-parses to itself; and the
+ * href and getters; a failing setter left the URL unchanged; validate() holds; and the
  * aggregator's state satisfies INV (harness/inv.h, incl. record invariants and truthful host kind).  This is the only
  * coverage of set_host / set_hostname / set_href / ada::url setters, which the solver obligations cannot decide. */
 #define BN 250
@@ -33,7 +33,9 @@ int main(int argc, char** argv) {
       uint64_t r = vk_setter_sweep(in, n + vlen[v], out, 36 + BN, n, s);
       if (!(r >> 63)) break;
       runs++;
-      uint64_t bits = r & 0xff; int inv_ok = 1;
+      /* bit 32 (href re-parses to itself) is NOT required after a setter: the Standard itself is not a fixed point there
+         (https://localhost/ with protocol := "file" serialises as file://localhost/, which parses to file:///) */
+      uint64_t bits = r & 0xff & ~32ull; int inv_ok = 1;
       if (!((r >> 40) & 1)) { struct st st; unpack(&st, out); inv_ok = INV(&st); }
       if (bits || !inv_ok) { bad++; if (bad <= 10) printf("SETTER-FAIL bits=%llu inv=%d setter=%u url=%.*s value=%.*s\n", (unsigned long long)bits, inv_ok, s, (int)n, buf, (int)vlen[v], vals[v]); }
     }
